@@ -617,6 +617,7 @@ func (c *Ctx) exactQuot(t *Term, m *big.Int) (*Term, bool) {
 	return nil, false
 }
 
+func (c *Ctx) ExactQuot(t *Term, m *big.Int) (*Term, bool) { return c.exactQuot(t, m) }
 func (c *Ctx) IAdd(a, b *Term) *Term { return c.intbin("+", a, b) }
 func (c *Ctx) ISub(a, b *Term) *Term { return c.intbin("-", a, b) }
 func (c *Ctx) IMul(a, b *Term) *Term { return c.intbin("*", a, b) }
